@@ -38,7 +38,7 @@ for run in req['runs']:
             sys.path.insert(0, os.path.dirname(os.path.abspath(__file__)))
             import fakes3
             from mosromgr.utils import s3 as s3mod
-            fakes3.install(s3mod, objects={k: v.encode('utf-8') for k, v in run['s3'].items()})
+            fakes3.install(s3mod, objects={k: v.encode('utf-8') for k, v in run['s3'].items()}, lazy=True)
         so, se = io.StringIO(), io.StringIO()
         status = None
         with contextlib.redirect_stdout(so), contextlib.redirect_stderr(se):
